@@ -10,9 +10,7 @@ use crate::ast::{
 use core::panic;
 
 use super::typecheck::Nominal;
-use super::{
-    Declaration, EnumDef, Error, PolytypeDeclaration, SolvedType as Type, StaticsContext, TypeKind,
-};
+use super::{Declaration, EnumDef, Error, PolytypeDeclaration, SolvedType as Type, StaticsContext};
 use crate::vm::AbraInt;
 use std::fmt::{self, Display};
 use std::rc::Rc;
@@ -262,7 +260,7 @@ impl Matrix {
                 _ => unreachable!(),
             },
             Constructor::Variant((enum_def, idx)) => {
-                let data_ty = data_ty_of_variant(statics, enum_def, *idx);
+                let data_ty = data_ty_of_variant(statics, enum_def, *idx, &expanded.types[0]);
                 match data_ty {
                     Type::Never => unreachable!(),
                     Type::InterfaceOutput(..) => unreachable!(),
@@ -545,7 +543,7 @@ impl DeconstructedPat {
             }
             Type::Nominal(_, _) => match ctor {
                 Constructor::Variant((enum_def, idx)) => {
-                    let data_ty = data_ty_of_variant(statics, enum_def, *idx);
+                    let data_ty = data_ty_of_variant(statics, enum_def, *idx, &self.ty);
 
                     if !matches!(data_ty, Type::Void) {
                         vec![data_ty.clone()]
@@ -577,6 +575,15 @@ impl DeconstructedPat {
                     .map(wildcard_of)
                     .collect()
             }
+            Type::Nominal(Nominal::Enum(_), _) => match ctor {
+                Constructor::Variant((enum_def, idx)) => {
+                    match data_ty_of_variant(statics, enum_def, *idx, &ty) {
+                        Type::Void => vec![],
+                        data_ty => vec![wildcard_of(&data_ty)],
+                    }
+                }
+                _ => vec![],
+            },
             Type::Tuple(tys) | Type::Nominal(_, tys) => tys.iter().map(wildcard_of).collect(),
             _ => vec![],
         };
@@ -625,10 +632,27 @@ fn subst_solved_ty(ty: &Type, subst: &HashMap<PolytypeDeclaration, Type>) -> Typ
     }
 }
 
-fn data_ty_of_variant(statics: &StaticsContext, enum_def: &Rc<EnumDef>, idx: usize) -> Type {
+// The type of the data carried by a variant of the enum type `enum_ty`, with the type arguments
+// of `enum_ty` substituted: `void` for `some` of an `option<void>`.
+// Everything that deals with the fields of a variant pattern must agree on this type, because
+// a void payload takes no column in the matrix.
+fn data_ty_of_variant(
+    statics: &StaticsContext,
+    enum_def: &Rc<EnumDef>,
+    idx: usize,
+    enum_ty: &Type,
+) -> Type {
+    let mut subst: HashMap<PolytypeDeclaration, Type> = HashMap::default();
+    if let Type::Nominal(_, args) = enum_ty {
+        for (ty_arg, arg) in enum_def.ty_args.iter().zip(args) {
+            if let Some(Declaration::Polytype(decl)) = statics.resolution_map.get(&ty_arg.name.id) {
+                subst.insert(decl.clone(), arg.clone());
+            }
+        }
+    }
     let variant = &enum_def.variants[idx];
     let variant_data = &variant.fields;
-    match variant_data.len() {
+    let data_ty = match variant_data.len() {
         0 => Type::Void,
         1 => variant_data[0].ty.to_solved_type(statics).unwrap(),
         _ => Type::Tuple(
@@ -637,7 +661,8 @@ fn data_ty_of_variant(statics: &StaticsContext, enum_def: &Rc<EnumDef>, idx: usi
                 .map(|field| field.ty.to_solved_type(statics).unwrap())
                 .collect(),
         ),
-    }
+    };
+    subst_solved_ty(&data_ty, &subst)
 }
 
 impl Display for DeconstructedPat {
@@ -743,7 +768,7 @@ impl Constructor {
         }
     }
 
-    fn arity(&self, matrix_tys: &[Type]) -> usize {
+    fn arity(&self, matrix_tys: &[Type], statics: &StaticsContext) -> usize {
         match self {
             Constructor::Bool(..)
             | Constructor::Int(..)
@@ -757,15 +782,10 @@ impl Constructor {
                 _ => panic!("unexpected type for product constructor: {}", matrix_tys[0]),
             },
             Constructor::Variant((enum_def, idx)) => {
-                let variant = &enum_def.variants[*idx];
-                match &variant.fields.len() {
-                    0 => 0,
-                    1 => match &*variant.fields[0].ty.kind {
-                        TypeKind::Void => 0,
-                        _ => 1,
-                    },
-                    // Multi-field variants are represented as a single tuple
-                    // in the matrix, so arity is 1.
+                // Multi-field variants are represented as a single tuple
+                // in the matrix, so arity is 1.
+                match data_ty_of_variant(statics, enum_def, *idx, &matrix_tys[0]) {
+                    Type::Void => 0,
                     _ => 1,
                 }
             }
@@ -1070,7 +1090,7 @@ fn compute_exhaustiveness_and_usefulness(
     }
 
     for ctor in present_ctors {
-        let ctor_arity = ctor.arity(&matrix.types);
+        let ctor_arity = ctor.arity(&matrix.types, statics);
 
         let mut specialized_matrix = matrix.specialize(&ctor, ctor_arity, statics);
 
